@@ -20,8 +20,10 @@ ValOf(h, v) == IF v = "i" THEN h.i ELSE h.s
 IVClaimOK(e, c) ==
   (c.known /\ c.var \in {"i", "s"}) =>
      \A k \in DOMAIN e.hdr : ValOf(e.hdr[k], c.var) = Wrap(c.start + (k - 1) * c.step, IF c.var = "i" THEN e.width ELSE 0)
-\* "the loop body really executes that many times"
-TripClaimOK(e) == e.tripknown => e.trip = e.iters
+\* "the loop body really executes that many times".  iters_ok lists the counts that count as "that many
+\* times": the body entries; for a loop whose exit test is not evaluated on every iteration (skiptest) also
+\* the number of iterations begun before the one that leaves (either reading of "executes" is accepted)
+TripClaimOK(e) == e.tripknown => \E k \in DOMAIN e.iters_ok : e.trip = e.iters_ok[k]
 
 LoopOK(e) == (\A j \in DOMAIN e.ivs : IVClaimOK(e, e.ivs[j])) /\ TripClaimOK(e)
 
